@@ -66,6 +66,9 @@ def jobs(seed=0):
                  bound_note="z3 (z3-new 5.1 if present), linear integer arithmetic, constants read from the real q120_common.h"))
     J += bbc_jobs()
     J += ntt_jobs(seed)
+    J.append(Job(name="q120.bbc.table_wf", props=["C10", "C04"], shape="S5", sources=[], harness="", entry="", kind="native",
+                 native_cmd=["tools/bbc_table_check.sh"], functions=["vec_mat1col_product_bbc_precomp"], timeout=300,
+                 bound_note="closed-term evaluation of the real constructor on this machine (not a proof)"))
     J.append(Job(name="ntt.tables_wf", props=["C04"], shape="S5", sources=[], harness="", entry="", kind="native",
                  native_cmd=["tools/ntt_tables_check.sh"], functions=["q120_new_ntt_bb_precomp", "q120_new_intt_bb_precomp"], timeout=600,
                  bound_note="closed-term evaluation of the real constructors on this machine for every n = 2..65536 (not a proof)"))
@@ -110,21 +113,19 @@ def bbc_jobs():
     word = lambda j: "s[%d] <= i * 8589934590ul" % j
     vk = lambda k: "((unsigned __int128)s[%d] + (((unsigned __int128)s[%d]) << 32)) == ACC[%d]" % (2 * k, 2 * k + 1, k)
     inv = "i <= ell && " + " && ".join(word(j) for j in range(8)) + " && " + " && ".join(vk(k) for k in range(4))
-    # The outer loop proof (ghost accumulators ACC, invariant V_k(s) == ACC[k] && s[j] <= i*(2^33-2), contracts in q120_bbc.c)
-    # timed out (900 s, both back ends) and is NOT registered: the accumulation over ell stays a paper induction over
-    # the step contract proved above (DESIGN 5/C10).
-    OUTER_NOT_REGISTERED = '''
+    # outer loop proof (every ell <= 10000): ghost accumulators ACC, invariant V_k(s) == ACC[k] && s[j] <= i*(2^33-2); the step is
+    # replaced by its contract in LEAN form (value relation through the ghost term GTERM, no 128-bit multiplier in this formula)
     for lane in range(4):
       J.append(Job(name="q120.bbc.q120_vec_mat1col_product_bbc_ref.lane%d" % lane, props=["C10", "C04", "C11", "C18"], shape="S1", sources=REF, harness="q120_bbc.c",
-                 entry="h_bbc_ref", export_static=True, defines=dict(d, LANE=lane),
+                 entry="h_bbc_ref", export_static=True, defines=dict(d, LANE=lane, LEAN_STEP=1),
                  enforce=[("q120_vec_mat1col_product_bbc_ref", "bbc_ref__c")],
                  replace=[("__CPROVER_file_local_q120_arithmetic_ref_c_accum_mul_q120_bc", "accum_mul__c"),
                           ("__CPROVER_file_local_q120_arithmetic_ref_c_accum_to_q120b", "accum_to_q120b__c")],
                  loops={"q120_vec_mat1col_product_bbc_ref": {"count": 1, "loops": [
-                     {"id": 0, "assigns": "i, __CPROVER_object_whole(s), __CPROVER_object_whole(ACC)", "invariants": inv, "decreases": "ell - i"}]}},
-                 cbmc_flags=["--no-signed-overflow-check"], functions=["q120_vec_mat1col_product_bbc_ref"], timeout=1800, solver="race",
+                     {"id": 0, "assigns": "i, __CPROVER_object_whole(s), __CPROVER_object_whole(ACC), __CPROVER_object_whole(GTERM)", "invariants": inv, "decreases": "ell - i"}]}},
+                 cbmc_flags=["--no-signed-overflow-check"], functions=["q120_vec_mat1col_product_bbc_ref"], timeout=1800, solver="kissat",
+                 tier="quick" if lane == 0 else "thorough",
                  bound_note="every ell <= 10000 (loop contract), ghost accumulators; step and final functions replaced by their contracts"))
-'''
     return J
 
 
